@@ -89,9 +89,9 @@ def elem_programs(tier, seed):
     progs = []; meta = []
     for ty in ("list", "tuple", "str", "range", "bytes"):
         for n in range(0, 7 if tier == "thorough" else 5):
-            lines = [PRE, "x = " + mk(ty, n)]; m = []
+            lines = []; m = []; cuts = []
             def add(code, **case):
-                lines.append(code); m.append(dict(type=ty, n=n, **case))
+                lines.append(code); m.append(dict(type=ty, n=n, **case)); cuts.append(len(lines))
             triples = [(a, b, c) for a in vals for b in vals for c in vals]
             if tier == "quick": triples = rnd.sample(triples, 160)
             wrap = "list" if ty == "range" else ""
@@ -131,7 +131,16 @@ def elem_programs(tier, seed):
                 lines.append("def f():\n    y = list(x)\n    rs = [y[:], y + [], [] + y, y * 1, 1 * y, list(y), y[::1], y[0:], y[:len(y)]]\n    for r in rs:\n        if len(r) > 0:\n            r[0] = 55\n            r[len(r) - 1] = 66\n            del r[0]\n    for r in rs:\n        r.append(1)\n    return y")
                 add("t(f)", op="noalias")
                 add("t(lambda: repr(x))", op="intact-after-all")
-            progs.append("\n".join(lines) + "\n"); meta.append(m)
+            # one program per <= 1500 observations (each well inside the harness watchdog), each closed by an
+            # intact-after-all observation of the operand
+            CH = 1500
+            for lo in range(0, len(m), CH):
+                hi = min(lo + CH, len(m))
+                code = lines[(cuts[lo - 1] if lo else 0):cuts[hi - 1]]
+                mm = m[lo:hi]
+                if mm[-1]["op"] != "intact-after-all":
+                    code = code + ["t(lambda: %s(x))" % ("list" if ty == "range" else "repr")]; mm = mm + [dict(type=ty, n=n, op="intact-after-all")]
+                progs.append("\n".join([PRE, "x = " + mk(ty, n)] + code) + "\n"); meta.append(mm)
     return progs, meta
 
 def m_bytes_seq(case): return case["type"] == "bytes" and case["op"] in ("getslice", "getitem", "len", "repeat", "rrepeat", "contains", "iter", "intact-after-all", "cmp", "concat")
